@@ -2037,7 +2037,8 @@ impl<'a, SE: extensions::ShellExtensions> WordExpander<'a, SE> {
                 break;
             };
 
-            if found.start() == found.end() && found.start() == s.len() {
+            let found_is_empty = found.start() == found.end();
+            if found_is_empty && found.end() == s.len() {
                 continue;
             }
 
